@@ -124,6 +124,10 @@ def _cmp_outputs(sym, conc, rtol=1e-6, atol=1e-7):
     for a, b in zip(sym, conc):
         if a is None or b is None:
             continue
+        if isinstance(a, str) and a.startswith("s:") or isinstance(b, str) and b.startswith("s:"):
+            if a != b:
+                return False
+            continue
         if isinstance(b, str):
             b = float.fromhex(b)
         if isinstance(a, bool) or isinstance(b, bool):
@@ -135,6 +139,28 @@ def _cmp_outputs(sym, conc, rtol=1e-6, atol=1e-7):
         if not (abs(a - b) <= atol + rtol * max(abs(a), abs(b))):
             return False
     return True
+
+
+def _modes_agree(r, r2):
+    if (r2.get("exc_type") != r.get("exc_type")) or ((r2.get("outputs") is None) != (r.get("outputs") is None)):
+        return False
+    if r.get("outputs") is None:
+        return True
+    conv = lambda xs: [None if x is None else (x if not isinstance(x, str) or x.startswith("s:") else float.fromhex(x)) for x in xs]
+    return _cmp_outputs(conv(r2["outputs"]), r["outputs"], rtol=1e-6, atol=1e-9)
+
+
+def _cross_mode_boundary(rep_jit, rep_py, req):
+    """The property compares the modes away from decision boundaries: True if both modes agree a hair away."""
+    for rel in (1e-7, -1e-7, 1e-5, -1e-5):
+        params = {}
+        for k, v in req["params"].items():
+            f = float.fromhex(v)
+            params[k] = (f + rel * max(1.0, abs(f))).hex() if not k.startswith("aux") else v
+        rq = dict(req, params=params)
+        if _modes_agree(rep_jit.call(rq), rep_py.call(rq)):
+            return True
+    return False
 
 
 def _boundary_witness(rep, req, p):
@@ -224,6 +250,8 @@ def run_check(prop, harness_name, tier, seed, replay_path=None, selftest=False, 
         agg["queries"] += res["queries"]
         agg["solver_s"] += res["solver_s"]
         agg["unknown"] += res["unknown"]
+        agg["defined_checked"] = agg.get("defined_checked", 0) + res.get("defined_checked", 0)
+        agg["defined_discharged"] = agg.get("defined_discharged", 0) + res.get("defined_discharged", 0)
         for p in res["paths"]:
             agg["paths"] += 1
             fam["paths"] += 1
@@ -247,6 +275,17 @@ def run_check(prop, harness_name, tier, seed, replay_path=None, selftest=False, 
                                        "concrete": {k: r.get(k) for k in ("exception", "hang", "crash")}})
                 elif _cmp_outputs(p["outputs"], r["outputs"]):
                     agg["validated"] += 1
+                    if getattr(H, "CROSS_MODE", False):
+                        r2 = rep_py.call(req)
+                        agg["cross_mode_compared"] = agg.get("cross_mode_compared", 0) + 1
+                        same = (r2.get("exc_type") == r.get("exc_type")) and (r2.get("outputs") is None) == (r.get("outputs") is None) and \
+                            (r.get("outputs") is None or _cmp_outputs([None if x is None else (x if not isinstance(x, str) or x.startswith("s:") else float.fromhex(x)) for x in r2["outputs"]], r["outputs"], rtol=1e-6, atol=1e-9))
+                        if not same and _cross_mode_boundary(rep_jit, rep_py, req):
+                            agg["cross_mode_boundary_only"] = agg.get("cross_mode_boundary_only", 0) + 1
+                        elif not same:
+                            violations.append({"family": job["family"], "args": job["args"], "what": "cross_mode:compiled and interpreted results differ",
+                                               "params": p["witness"], "replay": {"mode": "jit", "request": req, "result": r, "interpreted": r2,
+                                                                                   "why": "compiled and interpreted execution disagree at a path witness"}})
                 elif r.get("failed"):
                     # the compiled code takes another path at this witness AND violates the property there:
                     # a real failing input (found by witness validation, replayed by construction)
@@ -265,7 +304,7 @@ def run_check(prop, harness_name, tier, seed, replay_path=None, selftest=False, 
                     if len(mismatches) < 20:
                         mismatches.append({"family": job["family"], "args": job["args"], "witness": p["witness"],
                                            "trace": p["trace"], "symbolic": p["outputs"],
-                                           "concrete": [None if x is None else (x if not isinstance(x, str) else float.fromhex(x)) for x in r["outputs"]]})
+                                           "concrete": [None if x is None else (x if (not isinstance(x, str) or x.startswith("s:")) else float.fromhex(x)) for x in r["outputs"]]})
             elif p["status"] == "ok":
                 agg["witness_skipped"] += 1
             # obligations
@@ -374,7 +413,10 @@ def run_check(prop, harness_name, tier, seed, replay_path=None, selftest=False, 
             "explanation": "states = feasible paths of the real functions explored symbolically (each decided by z3 for ALL "
                            "values of the symbolic parameters satisfying its path condition); transitions = branch decisions decided by the solver plus one terminal (obligation) step per path; "
                            "traces_validated = path witnesses whose symbolic outputs matched the compiled (numba) code.",
-            "obligations": agg["obligations"], "discharged": agg["discharged"], "undecided": agg["undecided"],
+            "obligations": agg["obligations"] + agg.get("defined_checked", 0),
+            "discharged": agg["discharged"] + agg.get("defined_discharged", 0), "undecided": agg["undecided"],
+            "property_obligations": agg["obligations"], "property_obligations_discharged": agg["discharged"],
+            "definedness_obligations": agg.get("defined_checked", 0), "definedness_discharged": agg.get("defined_discharged", 0),
             "refuted_model_only": agg["model_only"], "refuted_and_replayed": agg["refuted_replayed"],
             "definedness_findings_model_only": agg["findings_model_only"],
             "paths_aborted": agg["aborted"], "paths_inconclusive_branch": agg["inconclusive_paths"],
@@ -385,6 +427,7 @@ def run_check(prop, harness_name, tier, seed, replay_path=None, selftest=False, 
             "witness_mismatch": agg["witness_mismatch"], "witness_not_available": agg["witness_skipped"],
             "witness_divergent_and_violating": agg.get("witness_violations", 0),
             "witness_on_branch_boundary": agg.get("witness_on_boundary", 0),
+            "cross_mode_compared_at_witnesses": agg.get("cross_mode_compared", 0), "cross_mode_boundary_only": agg.get("cross_mode_boundary_only", 0),
             "witness_mismatch_samples": mismatches[:5],
             "solver_queries": agg["queries"], "solver_s": round(agg["solver_s"], 2), "solver_unknown": agg["unknown"],
             "families": families,
